@@ -468,6 +468,7 @@ class SeqOps:
                     [ty.f_at(r, j)],
                 )
             )
+            self.facts.add(z3.Implies(hi3 == lo2, r == self.empty(ty)))
             # the full slice is the sequence itself
             self.facts.add(z3.Implies(z3.And(lo2 == 0, hi3 == n), r == s))
         return r
